@@ -424,6 +424,9 @@ def c08_core():
 def families():
     fams = [
         ("c01", "C01", c01_core()),
+        # every 13th of the 1600 enumerated depth-2 trees (123 shapes): compiled always, run only in the thorough tier,
+        # where VERIF_SEED selects CV_SAMPLE (40) of them per invocation
+        ("c01s", "C01", c01_sampled()[::13]),
         ("c02", "C02", c02_core()),
         ("c03", "C03", c03_core()),
         ("c04", "C04", c04_core()),
